@@ -532,7 +532,7 @@ def case_maxval(ctx, rng):
     sg = gen.pick(rng, [1, 1, -1])
     mv = gen.pick(rng, [1.0, TWO_PI * 2.5, 10.0, 15.0, 0.3, 50.0, gen.r6(rng.uniform(0.1, 60))])
     target = duration(rng)
-    beta = gen.pick(rng, [14.0, 14.0, 2.0, 25.0, 0.5]) if kind == "kaiser" else None
+    beta = gen.pick(rng, [14.0, 14.0, 2.0, 25.0, 0.5, 0, 0.0, 1e-3]) if kind == "kaiser" else None  # 0: rectangular window
     c = 0.42 if kind == "blackman" else float(np.sum(W.kaiser_window(100, beta))) / 100
     u = gen.pick(rng, [1.0, 1.0, 1 - 1e-9, 1 + 1e-9, rng.uniform(0.97, 1.03)])
     area = sg * mv * c * target * 1e-3 * u
@@ -557,6 +557,16 @@ def case_maxval(ctx, rng):
     if len(x) != d:
         ctx.violation("length", f"{cls}.from_max_val: len(samples) {len(x)} != duration {d}", f"length:{cls}")
         return
+    if beta is not None:
+        ctx.count("from_max_val_beta_checked")
+        if not beta:
+            ctx.count("from_max_val_beta_zero")
+        ref = W.kaiser_window(d, float(beta))
+        ref = ref * (area / (float(np.sum(ref)) * 1e-3))
+        if not np.allclose(x, ref, rtol=1e-9, atol=1e-12 * abs(mv)):
+            ctx.violation("from-max-val", f"{cls}.from_max_val(..., beta={beta!r}) of duration {d} is not the Kaiser window "
+                          f"of that beta (max deviation {float(np.max(np.abs(x - ref))):.3g})", f"from-max-val-beta:{cls}")
+            return
     if not np.all(np.isfinite(x)):
         ctx.violation("non-finite", f"{cls}.from_max_val({sg * mv!r}, {area!r}) of duration {d} has non-finite samples",
                       f"nonfinite:{cls}:{W.dur_class(d)}")
